@@ -30,6 +30,101 @@ class Stall(Exception):
     pass
 
 
+# ---------------------------------------------------------------------------
+# Locks created by vector code are intercepted (a synchronisation point the scheduler owns): a simulated
+# thread that finds the lock held by a *parked* thread does not block for real - it hands the baton on
+# and retries when it is scheduled again.  Outside a simulation, and for every other caller, they are
+# plain locks.
+# ---------------------------------------------------------------------------
+_ACTIVE = [None]          # the running Scheduler, if any
+_real_lock = threading.Lock
+_real_rlock = threading.RLock
+K_BLOCK = 5
+
+
+class SimLock:
+    def __init__(self, reentrant=False):
+        self._l = _real_lock()
+        self._reentrant = reentrant
+        self._owner = None     # (ident) of the holder
+        self._count = 0
+
+    def acquire(self, blocking=True, timeout=-1):
+        me = threading.get_ident()
+        if self._reentrant and self._owner == me:
+            self._count += 1
+            return True
+        sch = _ACTIVE[0]
+        k = sch.tids.get(me) if sch is not None else None
+        if k is None:
+            ok = self._l.acquire(blocking, timeout) if timeout != -1 else self._l.acquire(blocking)
+            if ok:
+                self._owner, self._count = me, 1
+            return ok
+        while True:
+            if self._l.acquire(False):
+                self._owner, self._count = me, 1
+                return True
+            if not blocking:
+                return False
+            sch.lock_wait(k, sch.tids.get(self._owner))
+
+    def release(self):
+        if self._reentrant and self._count > 1:
+            self._count -= 1
+            return
+        self._owner, self._count = None, 0
+        self._l.release()
+
+    def locked(self):
+        return self._l.locked()
+
+    def __enter__(self):
+        self.acquire()
+        return self
+
+    def __exit__(self, *a):
+        self.release()
+
+    # used by threading.Condition when handed an RLock-like object
+    def _is_owned(self):
+        return self._owner == threading.get_ident()
+
+    def _release_save(self):
+        c = self._count
+        self._owner, self._count = None, 0
+        self._l.release()
+        return c
+
+    def _acquire_restore(self, c):
+        self.acquire()
+        self._count = c
+
+
+def _lock_factory(real, reentrant):
+    def make(*a, **kw):
+        try:
+            mod = sys._getframe(1).f_globals.get("__name__", "")
+        except Exception:
+            mod = ""
+        if mod == "vector" or mod.startswith("vector."):
+            return SimLock(reentrant)
+        return real(*a, **kw)
+
+    return make
+
+
+def install_lock_seam():
+    """Must run before vector is imported (module-level locks are created at import)."""
+    if getattr(threading.Lock, "_vecsim", False):
+        return
+    f1 = _lock_factory(_real_lock, False)
+    f2 = _lock_factory(_real_rlock, True)
+    f1._vecsim = f2._vecsim = True
+    threading.Lock = f1
+    threading.RLock = f2
+
+
 _vec_cache: dict = {}
 _VDIR = os.path.realpath(env.VECTOR_DIR) + os.sep
 
@@ -251,6 +346,7 @@ class Scheduler:
         self.current = None      # thread that holds the baton
         self.unblocked = 0       # times a thread blocked on something a parked thread held (recovery, see run())
         self.blocked = set()     # threads sitting in a real blocking call (never chosen as switch targets)
+        self.nlockwaits = 0
         self.nops_done = 0
         self.trace: list = []
         self.errors: list = []
@@ -345,6 +441,19 @@ class Scheduler:
         self.sems[nxt].release()
         self.sems[k].acquire()
 
+    def lock_wait(self, k, owner):
+        """Thread k wants a lock a parked thread holds: a scheduling point at which k *must* yield."""
+        self.npoints += 1
+        self.nlockwaits += 1
+        others = [j for j in range(self.n) if j != k and not self.finished[j] and j not in self.blocked]
+        if not others:
+            import time as _t
+
+            _t.sleep(0.01)   # the holder is not a simulated thread: plain waiting
+            return
+        nxt = owner if owner in others else others[0]
+        self._switch(k, nxt, K_BLOCK, "lock")
+
     def op_begin(self, k, i):
         self.opidx[k] = i
         self.in_op[k] = True
@@ -426,6 +535,7 @@ class Scheduler:
                 mon.register_callback(TOOL, _PY_RETURN, self._cb_return)
             builtins.__import__ = _imp
             mon.set_events(TOOL, ev)
+        _ACTIVE[0] = self
         try:
             first = self.policy.first(self)
             self.trace.append((0, -1, first, K_FIN, "start", -1))
@@ -464,6 +574,7 @@ class Scheduler:
                         self.sems[nxt].release()
                         idle = 0.0
         finally:
+            _ACTIVE[0] = None
             if ev:
                 mon.set_events(TOOL, 0)
                 builtins.__import__ = orig_import
@@ -478,7 +589,7 @@ class Scheduler:
 
     def switch_list(self):
         """Explicit schedule actually taken: [[point index, next thread, is-finish-pick]]."""
-        return [[e[0], e[2], 1 if e[3] == K_FIN else 0] for e in self.trace]
+        return [[e[0], e[2], 1 if e[3] == K_FIN else 0] for e in self.trace if e[3] != K_BLOCK and e[4] != "unblock"]
 
     def digest(self):
         return self._hash.hexdigest()[:16]
